@@ -444,6 +444,21 @@ def c15(run):
             # packed aggregates: the field reads must be unaligned reads (only the const evaluator / Miri can tell)
             body, exp = gd.const_case(r, "packed")
             ps.add(body, exp, dict(r, flavor="const-packed", mac="destructure!(const fn, packed)"))
+    # the by-value array map / from_fn: per-element drop counts after every way the closure can leave (ArrayBuild.tla ledger)
+    import gen_arraybuild as ga
+    about = vec("C15-ArrayBuild.ndjson")
+    if os.path.exists(about):
+        os.remove(about)
+    run.mc("MC_ArrayBuild", "ArrayBuild.cfg", env={"OUT": about}, heap="2g", timeout=600)
+    seen = set()
+    for l in open(about):
+        r = json.loads(l)
+        key = (r["form"], r["n"], r["exit"], r["pos"], r["pc"])
+        if key in seen:
+            continue
+        seen.add(key)
+        for body, exp, rec in ga.byval_ledger_cases(r):
+            ps.add(body, exp, rec)
     ps.execute()
     run.samples.append({"descriptor": descs[len(descs) // 2]})
     run.assumptions += [BOUNDED, "the drop ledger lives in the harness' element type (per-id created/dropped counts, "
